@@ -199,18 +199,23 @@ theorem St.Same.trans {a b c : St} (h1 : St.Same a b) (h2 : St.Same b c) : St.Sa
 theorem Conforms.of_same {s s' : St} {T : TState} (h : St.Same s s') (hc : Conforms s T) : Conforms s' T := by
   obtain ⟨hv, he, hm, hf⟩ := h
   refine ⟨by rw [hf]; exact hc.faults, ?_, by rw [he]; exact hc.event, by rw [he]; exact hc.eventSorted,
-    by rw [hm]; exact hc.metadata, by rw [hm]; exact hc.metadataSorted⟩
-  intro n d hd
-  obtain ⟨v, h1, h2⟩ := hc.vars n d hd
-  exact ⟨v, by simpa [St.getVar, hv] using h1, h2⟩
+    by rw [hm]; exact hc.metadata, by rw [hm]; exact hc.metadataSorted, ?_⟩
+  · intro n d hd
+    obtain ⟨v, h1, h2⟩ := hc.vars n d hd
+    exact ⟨v, by simpa [St.getVar, hv] using h1, h2⟩
+  · intro n v hn
+    exact hc.closed n v (by simpa [St.getVar, hv] using hn)
 
 /-- changing only what `Conforms` does not look at in the type state -/
 theorem Conforms.of_tstate {s : St} {T T' : TState} (hl : T'.locals = T.locals) (ht : T'.target = T.target)
-    (hm : T'.metadata = T.metadata) (hc : Conforms s T) : Conforms s T' := by
+    (hm : T'.metadata = T.metadata) (hk : T'.leaked = T.leaked) (hc : Conforms s T) : Conforms s T' := by
   refine ⟨hc.faults, ?_, by rw [ht]; exact hc.event, hc.eventSorted, by rw [hm]; exact hc.metadata,
-    hc.metadataSorted⟩
-  intro n d hd
-  exact hc.vars n d (by simpa [TState.getVar, hl] using hd)
+    hc.metadataSorted, ?_⟩
+  · intro n d hd
+    exact hc.vars n d (by simpa [TState.getVar, hl] using hd)
+  · intro n v hn
+    have := hc.closed n v hn
+    simpa [TState.getVar, hl, hk] using this
 
 theorem names_of_all {A : Locals} {f : String → Bool} (h : A.all (fun (n, _) => f n) = true)
     {n : String} {d : Details} (hd : Locals.get A n = some d) : f n = true := by
@@ -271,7 +276,16 @@ theorem TState.getVar_merge (A B : TState) (n : String) :
 theorem Conforms.merge_left {s : St} {A B : TState} (ok : MergeOk A B) (hc : Conforms s A) :
     Conforms s (A.merge B) := by
   refine ⟨hc.faults, ?_, mem_union_left' ok.target hc.event, hc.eventSorted,
-    mem_union_left' ok.metadata hc.metadata, hc.metadataSorted⟩
+    mem_union_left' ok.metadata hc.metadata, hc.metadataSorted, ?_⟩
+  case refine_2 =>
+    intro n v hn
+    rcases hc.closed n v hn with h | h
+    · left
+      rw [TState.getVar_merge]
+      cases ha : A.getVar n with
+      | none => rw [ha] at h; cases h
+      | some a => cases B.getVar n <;> rfl
+    · right; exact List.mem_append_left _ h
   intro n d hd
   rw [TState.getVar_merge] at hd
   cases ha : A.getVar n with
@@ -300,7 +314,16 @@ theorem Conforms.merge_left {s : St} {A B : TState} (ok : MergeOk A B) (hc : Con
 theorem Conforms.merge_right {s : St} {A B : TState} (ok : MergeOk A B) (hc : Conforms s B) :
     Conforms s (A.merge B) := by
   refine ⟨hc.faults, ?_, mem_union_right' ok.target hc.event, hc.eventSorted,
-    mem_union_right' ok.metadata hc.metadata, hc.metadataSorted⟩
+    mem_union_right' ok.metadata hc.metadata, hc.metadataSorted, ?_⟩
+  case refine_2 =>
+    intro n v hn
+    rcases hc.closed n v hn with h | h
+    · left
+      rw [TState.getVar_merge]
+      cases hb : B.getVar n with
+      | none => rw [hb] at h; cases h
+      | some b => cases A.getVar n <;> rfl
+    · right; exact List.mem_append_right _ h
   intro n d hd
   rw [TState.getVar_merge] at hd
   cases ha : A.getVar n with
@@ -328,25 +351,49 @@ theorem Conforms.merge_right {s : St} {A B : TState} (ok : MergeOk A B) (hc : Co
         exact hv4 c (by rw [← this]; exact hcv)
       · cases hcv
 
+theorem Locals.mem_droppedNames {P C : Locals} {n : String} {d : Details} (hc : Locals.get C n = some d)
+    (hp : Locals.get P n = none) : n ∈ Locals.droppedNames P C := by
+  unfold Locals.droppedNames
+  rw [List.mem_map]
+  refine ⟨(n, d), ?_, rfl⟩
+  rw [List.mem_filter]
+  exact ⟨Locals.mem_of_get hc, by simp [hp]⟩
+
 /-- `apply_child_scope`: the parent's variables with what the block made of them -/
 theorem Conforms.scope {s : St} {P : Locals} {C : TState}
     (hsub : P.all (fun (n, _) => (C.getVar n).isSome) = true) (hc : Conforms s C) :
-    Conforms s { C with locals := Locals.applyChildScope P C.locals } := by
-  refine ⟨hc.faults, ?_, hc.event, hc.eventSorted, hc.metadata, hc.metadataSorted⟩
-  intro n d hd
-  simp only [TState.getVar] at hd
-  rw [Locals.get_applyChildScope] at hd
-  cases hp : Locals.get P n with
-  | none => rw [hp] at hd; cases hd
-  | some pd =>
-    rw [hp] at hd
-    have := names_of_all (f := fun n => (C.getVar n).isSome) hsub hp
-    cases hcn : C.getVar n with
-    | none => rw [hcn] at this; cases this
-    | some cd =>
-      simp only [TState.getVar] at hcn
-      simp only [Option.map_some, hcn, Option.getD_some, Option.some.injEq] at hd
-      subst hd
-      exact hc.vars n cd hcn
+    Conforms s (scopedState P C) := by
+  refine ⟨hc.faults, ?_, hc.event, hc.eventSorted, hc.metadata, hc.metadataSorted, ?_⟩
+  · intro n d hd
+    simp only [TState.getVar, scopedState] at hd
+    rw [Locals.get_applyChildScope] at hd
+    cases hp : Locals.get P n with
+    | none => rw [hp] at hd; cases hd
+    | some pd =>
+      rw [hp] at hd
+      have := names_of_all (f := fun n => (C.getVar n).isSome) hsub hp
+      cases hcn : C.getVar n with
+      | none => rw [hcn] at this; cases this
+      | some cd =>
+        simp only [TState.getVar] at hcn
+        simp only [Option.map_some, hcn, Option.getD_some, Option.some.injEq] at hd
+        subst hd
+        exact hc.vars n cd hcn
+  · intro n v hn
+    rcases hc.closed n v hn with h | h
+    · cases hcn : C.getVar n with
+      | none => rw [hcn] at h; cases h
+      | some cd =>
+        cases hp : Locals.get P n with
+        | some pd =>
+          left
+          simp only [TState.getVar, scopedState, Locals.get_applyChildScope, hp, Option.map_some, Option.isSome_some]
+        | none =>
+          right
+          simp only [scopedState]
+          exact List.mem_append_right _ (Locals.mem_droppedNames (by simpa [TState.getVar] using hcn) hp)
+    · right
+      simp only [scopedState]
+      exact List.mem_append_left _ h
 
 end Lang
